@@ -281,3 +281,505 @@ func runR55(c *Ctx) {
 		})
 	}
 }
+
+func init() {
+	register(&Rule{ID: "R56", Name: "READER-ERR-STICKY", Floor: 1,
+		Text: "in the CSV scanner the sticky error of the reader is set to io.EOF only where it has just been tested to be nil: a real failure of the underlying reader is never overwritten by end-of-input",
+		Run:  runR56})
+	register(&Rule{ID: "R57", Name: "UPPER-CURSOR", Floor: 1,
+		Text: "in the zero-alloc ToUpper the input position advances by the encoded width of the source rune (utf8.RuneLen of the ranged rune, or the width returned by decoding the input), never by the width of the upper-cased rune, whose encoding may be longer or shorter",
+		Run:  runR57})
+}
+
+func runR56(c *Ctx) {
+	p := c.P
+	n := 0
+	for _, fn := range p.FuncsIn("internal/fastcsv") {
+		eachInstr(fn, func(in ssa.Instruction) {
+			st, ok := in.(*ssa.Store)
+			if !ok || !isErrorType(st.Val.Type()) {
+				return
+			}
+			ld, ok := st.Val.(*ssa.UnOp)
+			if !ok {
+				return
+			}
+			g, ok := ld.X.(*ssa.Global)
+			if !ok || g.Name() != "EOF" || g.Pkg.Pkg.Path() != "io" {
+				return
+			}
+			fa, ok := st.Addr.(*ssa.FieldAddr)
+			if !ok {
+				return
+			}
+			n++
+			key := fname(fn) + "|err = io.EOF"
+			want := accessPath(fa)
+			okG := false
+			for _, gd := range dominatingGuards(st.Block()) {
+				b, ok := gd.Cond.(*ssa.BinOp)
+				if !ok {
+					continue
+				}
+				if cst, isC := b.Y.(*ssa.Const); isC && cst.IsNil() && accessPath(b.X) == want {
+					if b.Op == token.EQL && gd.Val || b.Op == token.NEQ && !gd.Val {
+						// the test must still be valid at the store: no call that may set the field in between
+						stale := false
+						eachInstr(fn, func(i2 ssa.Instruction) {
+							ci, ok := i2.(ssa.CallInstruction)
+							if !ok {
+								return
+							}
+							callee := ci.Common().StaticCallee()
+							if callee == nil || !writesField(p, callee, fa, map[*ssa.Function]bool{}) {
+								return
+							}
+							if instrReaches(gd.If, i2) && instrReaches(i2, st) {
+								stale = true
+							}
+						})
+						if !stale {
+							okG = true
+						}
+					}
+				}
+			}
+			if okG {
+				c.ok(key, p.instrPos(st), "only when no error is recorded yet")
+			} else {
+				c.bad(key, p.instrPos(st), "the reader's recorded error is overwritten with io.EOF without having been tested nil: a failure of the underlying reader is reported as a clean end of input (partial data, no error)")
+			}
+		})
+	}
+	if n == 0 {
+		c.okTrivial("internal/fastcsv|err = io.EOF", "-", "the scanner never stores io.EOF itself")
+	}
+}
+
+func runR57(c *Ctx) {
+	p := c.P
+	fn := p.Func("internal/strings", "ToUpper")
+	if fn == nil {
+		c.undecided("internal/strings.ToUpper", "-", "not found")
+		return
+	}
+	n := 0
+	eachInstr(fn, func(in ssa.Instruction) {
+		call, ok := in.(*ssa.Call)
+		if !ok {
+			return
+		}
+		o := calleeObj(call)
+		if !isFuncNamed(o, "unicode/utf8", "", "RuneLen") {
+			return
+		}
+		// is the result added to an int that indexes / reslices the input string?
+		usedForInput := false
+		var walk func(v ssa.Value, d int)
+		seen := map[ssa.Value]bool{}
+		walk = func(v ssa.Value, d int) {
+			if seen[v] || d > 6 {
+				return
+			}
+			seen[v] = true
+			for _, r := range *v.Referrers() {
+				switch t := r.(type) {
+				case *ssa.BinOp:
+					walk(t, d+1)
+				case *ssa.Phi:
+					walk(t, d+1)
+				case *ssa.Slice:
+					if b, ok := t.X.Type().Underlying().(*types.Basic); ok && b.Info()&types.IsString != 0 {
+						usedForInput = true
+					}
+				}
+			}
+		}
+		walk(call, 0)
+		if !usedForInput {
+			return
+		}
+		n++
+		key := fname(fn) + "|input advance"
+		// the argument must be the source rune (from ranging / decoding the input), not unicode.ToUpper's result
+		fromUpper := false
+		if ac, ok := call.Call.Args[0].(*ssa.Call); ok && isFuncNamed(calleeObj(ac), "unicode", "", "ToUpper") {
+			fromUpper = true
+		}
+		if fromUpper {
+			c.bad(key, p.instrPos(call), "the input position advances by the width of the upper-cased rune: for code points whose upper-case form has a different UTF-8 length the rest of the cell is cut at the wrong byte")
+		} else {
+			c.ok(key, p.instrPos(call), "advances by the width of the source rune")
+		}
+	})
+	// an advance computed from EncodeRune's result (bytes written) applied to the input is the same mistake
+	eachInstr(fn, func(in ssa.Instruction) {
+		call, ok := in.(*ssa.Call)
+		if !ok || !isFuncNamed(calleeObj(call), "unicode/utf8", "", "EncodeRune") {
+			return
+		}
+		seen := map[ssa.Value]bool{}
+		bad := false
+		var walk func(v ssa.Value, d int)
+		walk = func(v ssa.Value, d int) {
+			if seen[v] || d > 6 {
+				return
+			}
+			seen[v] = true
+			for _, r := range *v.Referrers() {
+				switch t := r.(type) {
+				case *ssa.BinOp:
+					walk(t, d+1)
+				case *ssa.Phi:
+					walk(t, d+1)
+				case *ssa.Slice:
+					if b, ok := t.X.Type().Underlying().(*types.Basic); ok && b.Info()&types.IsString != 0 && (t.Low == v || t.High == v) {
+						bad = true
+					}
+				}
+			}
+		}
+		walk(call, 0)
+		if bad {
+			n++
+			c.bad(fname(fn)+"|input advance", p.instrPos(call), "the number of bytes written for the upper-cased rune is used to advance in the input string")
+		}
+	})
+	if n == 0 {
+		c.undecided(fname(fn)+"|input advance", p.pos(fn.Pos()), "cannot find how the input position advances")
+	}
+}
+
+// writesField: fn (transitively through static module calls) stores to the same struct field as fa.
+func writesField(p *Prog, fn *ssa.Function, fa *ssa.FieldAddr, seen map[*ssa.Function]bool) bool {
+	if fn == nil || seen[fn] || fn.Blocks == nil || fn.Pkg == nil || !inModule(fn.Pkg.Pkg) {
+		return false
+	}
+	seen[fn] = true
+	st0, ok := deref(fa.X.Type()).Underlying().(*types.Struct)
+	if !ok {
+		return false
+	}
+	target := st0.Field(fa.Field)
+	found := false
+	eachInstr(fn, func(in ssa.Instruction) {
+		if found {
+			return
+		}
+		switch t := in.(type) {
+		case *ssa.Store:
+			if f2, ok := t.Addr.(*ssa.FieldAddr); ok {
+				if s2, ok := deref(f2.X.Type()).Underlying().(*types.Struct); ok && s2.Field(f2.Field) == target {
+					found = true
+				}
+			}
+		case ssa.CallInstruction:
+			if callee := t.Common().StaticCallee(); callee != nil && writesField(p, callee, fa, seen) {
+				found = true
+			}
+		}
+	})
+	return found
+}
+
+func init() {
+	register(&Rule{ID: "R58", Name: "JSON-FMT", Floor: 5,
+		Text: "every return of a column's AppendByteStringAt is, for float cells ryu.AppendFloat64f(buf, cell) or the constant null under IsNaN(cell), for int cells strconv.AppendInt(buf, int64(cell), 10), for bool cells strconv.AppendBool(buf, cell), for string/enum cells strings.AppendQuotedString(buf, cell) or the constant null under the null test: no other formatter (integer fast paths lose -0 and large magnitudes) writes a number into JSON",
+		Run:  runR58})
+	register(&Rule{ID: "R59", Name: "WILDCARD-TRIM", Floor: 1,
+		Text: "the helper that strips the % wildcards from a like pattern removes at most one % per end (TrimPrefix/TrimSuffix or slicing by one), never a cutset trim that would also eat literal % signs next to the wildcard",
+		Run:  runR59})
+}
+
+func runR58(c *Ctx) {
+	p := c.P
+	f := p.idxFacts()
+	res := p.resolver()
+	for _, cp := range columnPkgs {
+		fn := p.Func(cp, "Column.AppendByteStringAt")
+		if fn == nil {
+			c.undecided(cp+"|AppendByteStringAt", "-", "method not found")
+			continue
+		}
+		eachInstr(fn, func(in ssa.Instruction) {
+			ret, ok := in.(*ssa.Return)
+			if !ok {
+				return
+			}
+			key := fname(fn) + "|return"
+			pos := p.instrPos(ret)
+			call, isCall := ret.Results[0].(*ssa.Call)
+			if !isCall {
+				c.bad(key, pos, "the result is not produced by a formatter call")
+				return
+			}
+			// append(buf, "null"...) under the null test
+			if builtinName(call) == "append" {
+				if s, ok := constString(call.Call.Args[1]); ok && s == "null" {
+					okG := false
+					for _, g := range dominatingGuards(ret.Block()) {
+						if isNullPredicate(g.Cond) && g.Val {
+							okG = true
+						}
+					}
+					if okG {
+						c.ok(key, pos, "null under the null test")
+					} else {
+						c.bad(key, pos, "the constant null is written without the cell having been tested null")
+					}
+					return
+				}
+				c.bad(key, pos, "bytes are appended directly instead of through the type's formatter")
+				return
+			}
+			o := calleeObj(call)
+			want, okW := "", false
+			switch cp {
+			case "internal/fcolumn":
+				want = "ryu.AppendFloat64f"
+				okW = isFuncNamed(o, rel("internal/ryu"), "", "AppendFloat64f")
+			case "internal/icolumn":
+				want = "strconv.AppendInt(_, _, 10)"
+				if isFuncNamed(o, "strconv", "", "AppendInt") {
+					if k, isK := constInt(call.Call.Args[2]); isK && k == 10 {
+						okW = true
+					}
+				}
+			case "internal/bcolumn":
+				want = "strconv.AppendBool"
+				okW = isFuncNamed(o, "strconv", "", "AppendBool")
+			default:
+				want = "strings.AppendQuotedString"
+				okW = isFuncNamed(o, rel("internal/strings"), "", "AppendQuotedString")
+			}
+			cellOK := false
+			for _, a := range call.Call.Args[1:] {
+				if len(f.posReads(a, res)) >= 1 || derivesFromPosParam(f, a) {
+					cellOK = true
+				}
+			}
+			switch {
+			case !okW:
+				c.bad(key, pos, "the cell is written by something other than "+want+": the JSON text no longer denotes exactly the cell (e.g. -0 becomes 0 through an integer fast path)")
+			case !cellOK:
+				c.bad(key, pos, "the formatter is not applied to the cell at the given position")
+			default:
+				c.ok(key, pos, want+" on the cell")
+			}
+		})
+	}
+}
+
+func runR59(c *Ctx) {
+	p := c.P
+	nm := p.Func("internal/strings", "NewMatcher")
+	if nm == nil {
+		c.undecided("internal/strings.NewMatcher", "-", "not found")
+		return
+	}
+	helpers := map[*ssa.Function]bool{}
+	eachInstr(nm, func(in ssa.Instruction) {
+		call, ok := in.(*ssa.Call)
+		if !ok {
+			return
+		}
+		callee := call.Call.StaticCallee()
+		if callee == nil || callee.Pkg == nil || callee.Pkg.Pkg.Path() != rel("internal/strings") {
+			return
+		}
+		if callee.Signature.Params().Len() == 1 && callee.Signature.Results().Len() == 1 {
+			helpers[callee] = true
+		}
+	})
+	n := 0
+	check := func(fn *ssa.Function) {
+		eachInstr(fn, func(in ssa.Instruction) {
+			call, ok := in.(*ssa.Call)
+			if !ok {
+				return
+			}
+			o := calleeObj(call)
+			if o == nil || o.Pkg() == nil || o.Pkg().Path() != "strings" {
+				return
+			}
+			hasPct := false
+			for _, a := range call.Call.Args {
+				if s, ok := constString(a); ok && len(s) > 0 && s[0] == '%' {
+					hasPct = true
+				}
+			}
+			if !hasPct {
+				return
+			}
+			n++
+			key := fname(fn) + "|strings." + o.Name()
+			switch o.Name() {
+			case "TrimPrefix", "TrimSuffix", "HasPrefix", "HasSuffix", "CutPrefix", "CutSuffix":
+				c.ok(key, p.instrPos(call), "removes/tests exactly one leading or trailing %")
+			default:
+				c.bad(key, p.instrPos(call), "strings."+o.Name()+" with a % cutset removes every % in a run: a literal % next to the wildcard (like \"100%%\") is swallowed and the pattern matches too much")
+			}
+		})
+	}
+	check(nm)
+	for h := range helpers {
+		check(h)
+	}
+	if n == 0 {
+		c.undecided("internal/strings|wildcard handling", p.pos(nm.Pos()), "no strings call with a % argument found in NewMatcher or its helpers")
+	}
+}
+
+func init() {
+	register(&Rule{ID: "R61", Name: "SHORT-READ", Floor: 2,
+		Text: "no caller of io.Reader.Read decides anything by comparing the returned byte count with the size of the buffer it offered: a short read is legal at any time and does not mean the source is drained",
+		Run:  runR61})
+	register(&Rule{ID: "R62", Name: "EMPTY-LINES", Floor: 1,
+		Text: "in ReadCSV, assuming the current row is an empty line and IgnoreEmptyLines is set, the code that appends the row's cells to the column buffers is unreachable whatever the column count is",
+		Run:  runR62})
+	register(&Rule{ID: "R2c", Name: "NO-SHARED-STATE", Floor: 3,
+		Text: "the module contains no go statement, no use of sync / sync/atomic and no private math/rand generator: operations keep no hidden shared state (statement caches, memo tables, generators) that would make a result depend on earlier or concurrent calls",
+		Run:  func(c *Ctx) { sharedStateCounts(c) }})
+	purityRuleG("R1w", "PURITY-IO", 6, "(qframe.QFrame).ToCSV", "(qframe.QFrame).ToJSON", "(qframe.QFrame).ToSQL", "qframe.ReadCSV", "qframe.ReadJSON", "qframe.ReadSQL", "qframe.ReadSQLWithArgs")
+}
+
+func runR61(c *Ctx) {
+	p := c.P
+	for _, fn := range p.Funcs {
+		eachInstr(fn, func(in ssa.Instruction) {
+			call, ok := in.(*ssa.Call)
+			if !ok {
+				return
+			}
+			cc := call.Common()
+			if !cc.IsInvoke() || cc.Method.Name() != "Read" || cc.Method.Pkg() == nil || cc.Method.Pkg().Path() != "io" {
+				return
+			}
+			key := fname(fn) + "|count of io.Reader.Read"
+			bufPath := accessPath(cc.Args[0])
+			bad := ""
+			for _, r := range *call.Referrers() {
+				ex, ok := r.(*ssa.Extract)
+				if !ok || ex.Index != 0 {
+					continue
+				}
+				for _, u := range *ex.Referrers() {
+					cmp, ok := u.(*ssa.BinOp)
+					if !ok {
+						continue
+					}
+					switch cmp.Op {
+					case token.LSS, token.LEQ, token.GTR, token.GEQ, token.EQL, token.NEQ:
+					default:
+						continue
+					}
+					other := cmp.Y
+					if cmp.Y == ssa.Value(ex) {
+						other = cmp.X
+					}
+					if lc, ok := other.(*ssa.Call); ok && (builtinName(lc) == "len" || builtinName(lc) == "cap") {
+						if accessPath(lc.Call.Args[0]) == bufPath || rootValue(lc.Call.Args[0]) == rootValue(cc.Args[0]) {
+							bad = p.instrPos(cmp)
+						}
+					}
+				}
+			}
+			if bad != "" {
+				c.bad(key, p.instrPos(call), fmt.Sprintf("the byte count is compared with the buffer size at %s: a short read (legal for every io.Reader) is taken for end of input and the rest of the stream is dropped", bad))
+			} else {
+				c.ok(key, p.instrPos(call), "the count is never compared with the buffer size")
+			}
+		})
+	}
+}
+
+func runR62(c *Ctx) {
+	p := c.P
+	fn := p.Func("internal/io", "ReadCSV")
+	if fn == nil {
+		c.undecided("internal/io.ReadCSV", "-", "not found")
+		return
+	}
+	// blocks that append a cell to a column buffer
+	var sinks []*ssa.BasicBlock
+	eachInstr(fn, func(in ssa.Instruction) {
+		st, ok := in.(*ssa.Store)
+		if !ok {
+			return
+		}
+		ia, ok := st.Addr.(*ssa.IndexAddr)
+		if !ok || !isSliceOfSlices(ia.X.Type()) {
+			return
+		}
+		if call, ok := st.Val.(*ssa.Call); ok && builtinName(call) == "append" {
+			for _, li := range loopsOf(fn) {
+				if inLoop(li, st.Block()) {
+					sinks = append(sinks, st.Block())
+					break
+				}
+			}
+		}
+	})
+	// the row loop: driven by r.Next()
+	var start *ssa.BasicBlock
+	eachInstr(fn, func(in ssa.Instruction) {
+		if call, ok := in.(*ssa.Call); ok {
+			if o := calleeObj(call); o != nil && o.Name() == "Fields" {
+				start = call.Block()
+			}
+		}
+	})
+	key := fname(fn) + "|empty line with IgnoreEmptyLines"
+	if start == nil || len(sinks) == 0 {
+		c.undecided(key, p.pos(fn.Pos()), "cannot find the row loop / the cell append")
+		return
+	}
+	decide := func(cond ssa.Value) (bool, bool) {
+		cv, val := unNot(cond, true)
+		if call, ok := cv.(*ssa.Call); ok {
+			if o := calleeObj(call); o != nil && o.Name() == "isEmptyLine" {
+				return val, true
+			}
+		}
+		if fieldNameOfLoad(cv) == "IgnoreEmptyLines" {
+			return val, true
+		}
+		return false, false
+	}
+	seen := map[*ssa.BasicBlock]bool{}
+	reached := false
+	var dfs func(b *ssa.BasicBlock)
+	dfs = func(b *ssa.BasicBlock) {
+		if seen[b] || reached {
+			return
+		}
+		seen[b] = true
+		for _, s := range sinks {
+			if s == b {
+				reached = true
+				return
+			}
+		}
+		follow := []bool{true, true}
+		if iff, ok := b.Instrs[len(b.Instrs)-1].(*ssa.If); ok {
+			if v, known := decide(iff.Cond); known {
+				follow[0], follow[1] = v, !v
+			}
+		}
+		for i, s := range b.Succs {
+			if i < 2 && !follow[i] {
+				continue
+			}
+			if s == start {
+				continue // next row
+			}
+			dfs(s)
+		}
+	}
+	dfs(start)
+	if reached {
+		c.bad(key, p.pos(start.Instrs[0].Pos()), "an empty line can reach the code that appends the row's cells although IgnoreEmptyLines is set (e.g. when the header has a single column, so the column count matches): the empty line becomes a cell")
+	} else {
+		c.ok(key, p.pos(start.Instrs[0].Pos()), "empty lines are skipped before any cell is appended, for every column count")
+	}
+}
